@@ -231,10 +231,16 @@ async def stream(
 ) -> AsyncIterator[Any]:
     # This dirty trickery is for cases when the server thinks too slowly before
     # sending the headers, but the stopper is already set during the initial wait.
+    # NB: the task is remembered here: there is no "current task" inside of the futures' callbacks.
+    # Only our own cancellation may be swallowed below; the cancellations from outside must escalate.
+    task = asyncio.current_task()
+    cancelled_by_stopper = False
+
     def request_cancel_callback(_: aiotasks.Future) -> None:
-        task = asyncio.current_task()
-        assert task is not None  # for type-checkers; this is `async def`, so always in a task.
-        task.cancel()
+        nonlocal cancelled_by_stopper
+        if task is not None:
+            cancelled_by_stopper = True
+            task.cancel()
 
     if stopper is not None and not stopper.done():
         stopper.add_done_callback(request_cancel_callback)
@@ -249,10 +255,11 @@ async def stream(
             logger=logger,
         )
     except asyncio.CancelledError:
-        if stopper is not None and stopper.done():
+        uncancel = getattr(task, 'uncancel', None)  # TODO: Python 3.10 has no uncancel().
+        if cancelled_by_stopper and (uncancel is None or uncancel() == 0):
             return
         else:
-            raise  # triggered not by the stopper, escalate
+            raise  # triggered not by the stopper (or not only by it), escalate
     finally:
         if stopper is not None:
             stopper.remove_done_callback(request_cancel_callback)
